@@ -14,6 +14,10 @@
 (***************************************************************************)
 EXTENDS Draft6, Universe, TLC, Json
 
+(* TLC orders record fields by the order in which their names were first seen: the tag
+   field k of JSON values must be met before v (heterogeneous values are told apart by k) *)
+LOCAL InternOrderKV == [k |-> 0, v |-> 0]
+
 CONSTANTS MaxEdges, MaxNodes, Wide     \* Wide = TRUE: all shapes and positions
 
 Names == <<"R", "A", "B", "oC">>
